@@ -47,7 +47,8 @@ XSIM_THOROUGH = {
     "C02": [("MC_raft_quick.cfg", 1000000), ("MC_raft_crash.cfg", 1000000), ("MC_x_noneager.cfg", 600000)],
     "C03": [("MC_x_elect3_m3.cfg", 1000000), ("MC_raft_cq_small.cfg", 1000000), ("MC_raft_crash.cfg", 1000000),
             ("MC_x_prevote3.cfg", 1000000)],
-    "C06": [("MC_raft_read.cfg", 1000000), ("MC_x_nonvoting_read.cfg", 1000000)],
+    # read_remove: a ReadIndex and the removal of the other voter of a two-voter shard in one configuration
+    "C06": [("MC_raft_read.cfg", 1000000), ("MC_x_nonvoting_read.cfg", 1000000), ("MC_x_read_remove.cfg", 400000)],
     "C07": [("MC_x_cc_crash.cfg", 1000000), ("MC_raft_cc.cfg", 1000000)],
     "C18": [("MC_x_nonvoting_read.cfg", 1000000), ("MC_raft_cq_small.cfg", 1000000)],
 }
